@@ -1,7 +1,7 @@
 (* Extraction of the configuration model, its specification oracles and the
    schedule model.  ExtrOcamlBasic only. *)
 From Coq Require Import Extraction ExtrOcamlBasic.
-From Robsd Require Import Conf.ConfDefs Conf.ConfOracle.
+From Robsd Require Import Conf.ConfDefs Conf.ConfOracle Conf.SchedDefs Conf.SchedSpec.
 From RobsdGen Require Import Gen_Conf.
 Extraction Language OCaml.
-Extraction "cf_model.ml" robsd_config tables_of spec_config spec_accepts.
+Extraction "cf_model.ml" robsd_config tables_of spec_config spec_accepts list_cmd resolve spec_full_ok spec_offset_ok.
